@@ -1,7 +1,7 @@
 import os, random, itertools
 from tools import vlib, cli
 
-RULE = ("the real binary on file sets drawn from {clean, warning-only, erroring, mixed, unparsable, empty, missing, excluded-by-pattern, missing-and-excluded, listed directory whose name is excluded} x "
+RULE = ("the real binary on file sets drawn from {clean, warning-only, erroring, mixed, unparsable, empty, missing, excluded-by-pattern, missing-and-excluded, listed directory whose name is excluded, listed directory containing a dangling symbolic link} x "
         "severity configurations (default, a warning lint denied, an error lint allowed, a warning lint allowed) x --allow-warnings x "
         "--no-exclude x --no-summary x display styles {rich, quiet, json, json2} x luacheck mode; every sign pattern of (errors, warnings, "
         "parse errors, missing) x allow-warnings is forced at least once; exit status, summary presence and totals are predicted by the Lean "
@@ -139,6 +139,42 @@ def body(ctx):
                 bb = lambda x: "true" if x else "false"
                 lines.append(f"C19.run\t(({fsx}) ({bb(aw)} {bb(ne)} false false 0))\t({rc} {bb(summary is not None)} {counts} {perr} {pwarn})")
                 ctx.stats["listed_directory_runs"] = ctx.stats.get("listed_directory_runs", 0) + 1
+    # a listed directory that contains an entry that cannot be opened (a dangling symbolic link named *.lua, found by
+    # the directory walk): it counts as an unreadable file, like a listed file that is missing
+    for i, inner in enumerate([["clean"], ["clean", "clean"], ["warn"], []]):
+        d = os.path.join(ctx.workdir, f"dangling{i}")
+        os.makedirs(os.path.join(d, "src"), exist_ok=True)
+        inner_files = []
+        for j, kind in enumerate(inner):
+            fname = f"src/f_{j}_{kind}.lua"
+            with open(os.path.join(d, fname), "w", newline="") as fh:
+                fh.write(cli.FILE_KINDS[kind])
+            inner_files.append(fname)
+        link = os.path.join(d, "src", "gone.lua")
+        if not os.path.lexists(link):
+            os.symlink("does_not_exist_anywhere.lua", link)
+        cfgname = "cfgdang.toml"
+        cli.write_config(d, name=cfgname)
+        outcomes = [cli.single_file_outcome(d, f, cfgname)[0] for f in inner_files]
+        for aw in (False, True):
+            for style in ("json2", "quiet"):
+                args = ["--config", cfgname, "--num-threads", rng.choice(["1", "2"]), "--display-style", style] + (["--allow-warnings"] if aw else [])
+                rc, out, err = cli.run_selene(args + ["src"], d)
+                if style == "json2":
+                    diags, summary, bad = cli.parse_json_lines(out)
+                    perr = sum(1 for x in diags if x["severity"] == "Error" and x.get("code") != "parse_error")
+                    pwarn = sum(1 for x in diags if x["severity"] == "Warning")
+                    counts = f"({summary['parse_errors']} {summary['errors']} {summary['warnings']})" if summary else "none"
+                else:
+                    q, sq = cli.parse_quiet(out)
+                    perr = sum(1 for x in q if x["sev"] == "error" and x["code"] != "parse_error")
+                    pwarn = sum(1 for x in q if x["sev"] == "warning")
+                    counts = f"({sq['parse_errors']} {sq['errors']} {sq['warnings']})" if sq else "none"
+                    summary = sq
+                fsx = " ".join([f"({cli.sq(f)} false {o})" for f, o in zip(inner_files, outcomes)] + [f"({cli.sq('src/gone.lua')} false missing)"])
+                bb = lambda x: "true" if x else "false"
+                lines.append(f"C19.run\t(({fsx}) ({bb(aw)} false false false 0))\t({rc} {bb(summary is not None)} {counts} {perr} {pwarn})")
+                ctx.stats["dangling_entry_runs"] = ctx.stats.get("dangling_entry_runs", 0) + 1
     # crashed workers: stdout is /dev/full, so every file that has something to print panics in its worker
     # (the write fails); files with nothing to print do not. Exit must be 1 whenever a worker crashed.
     b = lambda x: "true" if x else "false"
